@@ -28,10 +28,10 @@ type fakeFwd struct {
 	out chan server.GatewayPacket // from the gateway (uplinks)
 }
 
-func (f *fakeFwd) Start()                               {}
-func (f *fakeFwd) Stop()                                {}
-func (f *fakeFwd) Input() chan<- server.GatewayPacket   { return f.in }
-func (f *fakeFwd) Output() <-chan server.GatewayPacket  { return f.out }
+func (f *fakeFwd) Start()                              {}
+func (f *fakeFwd) Stop()                               {}
+func (f *fakeFwd) Input() chan<- server.GatewayPacket  { return f.in }
+func (f *fakeFwd) Output() <-chan server.GatewayPacket { return f.out }
 
 // pipeRig is a real processing pipeline (real Start loops) on a SQLite file.
 type pipeRig struct {
@@ -51,7 +51,9 @@ type pipeRig struct {
 	stageMu  sync.Mutex
 	stageLog []string
 	gate     *gateCtl
-	carry    []string // events published to subscribers of a server that was abandoned since
+	carry    []string                // events published to subscribers of a server that was abandoned since
+	rxDelay  time.Duration           // receive window (0 in all engines but rxwindow)
+	onStage  func(event, key string) // observer of stage events (rxwindow)
 }
 
 func newPipeRig(file string, netID uint, nonceCheckOff bool) (*pipeRig, error) {
@@ -79,6 +81,9 @@ func (r *pipeRig) stage(event, key string) {
 			}
 		}
 	}
+	if r.onStage != nil {
+		r.onStage(event, key)
+	}
 	// only now tell the controller (it re-reads the counter when woken)
 	if r.gate != nil {
 		r.gate.stage(event, key)
@@ -100,7 +105,7 @@ func (r *pipeRig) start() error {
 	r.ctx = &server.Context{Storage: st, FrameOutput: r.fob, Config: r.cfg, AppRouter: r.router, GwEventRouter: &gwr}
 	r.fwd = &fakeFwd{in: make(chan server.GatewayPacket), out: make(chan server.GatewayPacket)}
 	r.pipe = processor.NewPipeline(r.ctx, r.fwd)
-	r.pipe.Scheduler.SetRXDelay(0)
+	r.pipe.Scheduler.SetRXDelay(r.rxDelay)
 	r.subs = map[protocol.EUI]<-chan *server.PayloadMessage{}
 	atomic.StoreInt64(&r.inflight, 0)
 	processor.VerifStage = r.stage
